@@ -306,12 +306,13 @@ func enumerateChunkings(st []uint16) [][]m.TWCCChunk {
 }
 
 func TestC13(t *testing.T) {
+	defer harness.Uncaught(t)
 	// (A)
 	harness.RapidCheck(t, harness.Scale(8000, 60000), 13, func(rt *rapid.T) {
 		kind, b := genTWCCBytes(rt)
 		c := c13Bytes{B: b}
 		var p rtcp.TransportLayerCC
-		err := p.Unmarshal(append([]byte(nil), b...))
+		err := harness.Guard(func() error { return p.Unmarshal(append([]byte(nil), b...)) })
 		harness.Eval(subC13A.Name, 1)
 		if err == nil {
 			harness.Class("A-accepted:"+kind, 1)
